@@ -1,0 +1,12 @@
+//go:build !verif
+
+package pubsub
+
+// Verification hooks (see /verif/DESIGN.md). With the "verif" build tag off
+// these are no-ops the compiler removes.
+
+func verifSchedPoint(string) {}
+
+func verifQueuePush(*rpcQueue, *RPC, bool, error) {}
+
+func verifOnNewPubSub(*PubSub) {}
